@@ -87,8 +87,8 @@ fn any_record_store() -> MemoryStore {
     s
 }
 
-fn value_of(s: &MemoryStore, k: u8) -> Option<(usize, u8)> {
-    s.get(&key(k)).map(|r| (r.value.len(), if r.value.is_empty() { 0 } else { r.value[0] }))
+fn value_of(s: &MemoryStore, k: &Key) -> Option<(usize, u8)> {
+    s.get(k).map(|r| (r.value.len(), if r.value.is_empty() { 0 } else { r.value[0] }))
 }
 
 /// put / get / remove behave like a map bounded by max_records / max_value_bytes
@@ -103,8 +103,9 @@ fn contract_put_get_remove() {
     let vlen: usize = kani::any();
     kani::assume(vlen <= 3);
     let v: u8 = kani::any();
-    let before = value_of(&s, k);
-    let other_before = value_of(&s, other);
+    let (kk, ko) = (key(k), key(other));
+    let before = value_of(&s, &kk);
+    let other_before = value_of(&s, &ko);
     let max_records = s.config.max_records;
     let max_value_bytes = s.config.max_value_bytes;
     let r = s.put(rec(k, v, vlen));
@@ -115,23 +116,23 @@ fn contract_put_get_remove() {
     assert!(r.is_ok() == !(too_large || full));
     if r.is_ok() {
         // get returns the latest put; the store grows by one only for a new key
-        assert!(value_of(&s, k) == Some((vlen, if vlen == 0 { 0 } else { v })));
+        assert!(value_of(&s, &kk) == Some((vlen, if vlen == 0 { 0 } else { v })));
         assert!(s.records.len() == n0 + before.is_none() as usize);
     } else {
         // a refused put changes nothing
-        assert!(value_of(&s, k) == before);
+        assert!(value_of(&s, &kk) == before);
         assert!(s.records.len() == n0);
     }
     // frame: any other key is untouched
-    assert!(value_of(&s, other) == other_before);
+    assert!(value_of(&s, &ko) == other_before);
     // remove deletes exactly that key
     let n1 = s.records.len();
-    let had = value_of(&s, k).is_some();
-    s.remove(&key(k));
-    assert!(value_of(&s, k).is_none());
-    assert!(value_of(&s, other) == other_before);
+    let had = value_of(&s, &kk).is_some();
+    s.remove(&kk);
+    assert!(value_of(&s, &kk).is_none());
+    assert!(value_of(&s, &ko) == other_before);
     assert!(s.records.len() == n1 - had as usize);
-    std::mem::forget(s);
+    std::mem::forget((s, kk, ko));
 }
 
 /// ANY store with up to one provider key holding up to two provider records of
@@ -162,33 +163,28 @@ fn any_provider_store() -> (MemoryStore, u8) {
     (s, k)
 }
 
-fn listed(s: &MemoryStore, k: u8, p: u8) -> Option<usize> {
-    let p = peer(p);
-    s.providers.get(&key(k)).and_then(|l| l.iter().position(|x| x.provider == p))
+fn listed(s: &MemoryStore, k: &Key, p: &PeerId) -> Option<usize> {
+    s.providers.get(k).and_then(|l| l.iter().position(|x| &x.provider == p))
 }
 
-fn list_len(s: &MemoryStore, k: u8) -> usize {
-    s.providers.get(&key(k)).map_or(0, |l| l.len())
+fn list_len(s: &MemoryStore, k: &Key) -> usize {
+    s.providers.get(k).map_or(0, |l| l.len())
 }
 
-/// `provided` lists exactly the local node's current provider records (for the
-/// keys k / k2 the harness can reach and the record tags 0 / 1 / 2 it uses)
-fn provided_in_sync(s: &MemoryStore, keys: [u8; 2]) -> bool {
+/// `provided` lists exactly the local node's current provider records: it has as
+/// many elements as there are keys with a local record (the harness states reach
+/// at most the two keys given), and contains each of those records.
+fn provided_in_sync(s: &MemoryStore, keys: [&Key; 2], same: bool) -> bool {
     let mut ok = true;
     let mut n = 0;
     let mut i = 0;
     while i < 2 {
-        let k = keys[i];
-        if i == 0 || keys[1] != keys[0] {
-            let cur = s.providers.get(&key(k)).and_then(|l| l.iter().find(|x| x.provider == local()).cloned());
-            let mut t = 0u8;
-            while t < 3 {
-                let cand = prov(k, LOCAL, t);
-                let is_cur = cur.as_ref().map_or(false, |c| *c == cand);
-                ok &= s.provided.contains(&cand) == is_cur;
-                t += 1;
+        if i == 0 || !same {
+            let cur = s.providers.get(keys[i]).and_then(|l| l.iter().find(|x| x.provider == local()));
+            if let Some(c) = cur {
+                ok &= s.provided.contains(c);
+                n += 1;
             }
-            n += cur.is_some() as usize;
         }
         i += 1;
     }
@@ -200,47 +196,49 @@ fn provided_in_sync(s: &MemoryStore, keys: [u8; 2]) -> bool {
 #[kani::unwind(8)]
 fn contract_add_provider() {
     let (mut s, k0) = any_provider_store();
-    let k: u8 = if kani::any() { k0 } else { kani::any() };
-    let p = any_peer_tag();
-    let q = any_peer_tag();
-    kani::assume(q != p);
+    let same = kani::any();
+    let k: u8 = if same { k0 } else { kani::any() };
+    kani::assume(same || k != k0);
+    let (kk0, kk) = (key(k0), key(k));
+    let (pt, qt) = (any_peer_tag(), any_peer_tag());
+    kani::assume(qt != pt);
+    let (p, q) = (peer(pt), peer(qt));
     let tag: u8 = if kani::any() { 2 } else { 0 };
-    let new_rec = prov(k, p, tag);
+    let new_rec = prov(k, pt, tag);
     let maxp = s.config.max_providers_per_key;
     let keys0 = s.providers.len();
-    let len0 = list_len(&s, k);
-    let pos0 = listed(&s, k, p);
-    let q0 = listed(&s, k, q);
-    let other_len0 = if k != k0 { list_len(&s, k0) } else { 0 };
+    let len0 = list_len(&s, &kk);
+    let pos0 = listed(&s, &kk, &p);
+    let q0 = listed(&s, &kk, &q);
+    let other_len0 = list_len(&s, &kk0);
     kani::assume(len0 <= maxp); // well-formed state: the per-key bound holds
     kani::cover!(true);
-    assert!(provided_in_sync(&s, [k0, k])); // the generator builds states in sync
     let r = s.add_provider(new_rec.clone());
-    let len1 = list_len(&s, k);
+    let len1 = list_len(&s, &kk);
     // each key lists at most max_providers_per_key providers
     assert!(len1 <= maxp);
     // another provider of the same key is untouched, another key's list too
-    assert!(listed(&s, k, q) == q0);
-    if k != k0 {
-        assert!(list_len(&s, k0) == other_len0);
+    assert!(listed(&s, &kk, &q) == q0);
+    if !same {
+        assert!(list_len(&s, &kk0) == other_len0);
     }
     match pos0 {
         Some(i) => {
             // re-adding a provider updates it in place (same position, new record)
             assert!(r.is_ok());
             assert!(len1 == len0);
-            assert!(listed(&s, k, p) == Some(i));
-            assert!(s.providers.get(&key(k)).unwrap()[i] == new_rec);
+            assert!(listed(&s, &kk, &p) == Some(i));
+            assert!(s.providers.get(&kk).unwrap()[i] == new_rec);
         }
         None => {
             if r.is_ok() && len0 < maxp {
                 assert!(len1 == len0 + 1);
-                assert!(listed(&s, k, p) == Some(len0));
-                assert!(s.providers.get(&key(k)).unwrap()[len0] == new_rec);
+                assert!(listed(&s, &kk, &p) == Some(len0));
+                assert!(s.providers.get(&kk).unwrap()[len0] == new_rec);
             } else {
                 // refused (provided-keys limit) or list full: the provider is not listed
                 assert!(len1 == len0);
-                assert!(listed(&s, k, p).is_none());
+                assert!(listed(&s, &kk, &p).is_none());
             }
             if r.is_err() {
                 assert!(matches!(r, Err(Error::MaxProvidedKeys)));
@@ -249,35 +247,38 @@ fn contract_add_provider() {
         }
     }
     // provided() lists exactly the local node's current provider records
-    assert!(provided_in_sync(&s, [k0, k]));
-    std::mem::forget(s);
+    assert!(provided_in_sync(&s, [&kk0, &kk], same));
+    std::mem::forget((s, kk0, kk, new_rec));
 }
 
 #[kani::proof]
 #[kani::unwind(8)]
 fn contract_remove_provider() {
     let (mut s, k0) = any_provider_store();
-    let k: u8 = if kani::any() { k0 } else { kani::any() };
-    let p = any_peer_tag();
-    let q = any_peer_tag();
-    kani::assume(q != p);
-    let q0 = listed(&s, k0, q).is_some();
-    let len0 = list_len(&s, k0);
-    let p0 = listed(&s, k0, p).is_some();
-    let was = k == k0 && p0;
-    s.remove_provider(&key(k), &peer(p));
+    let same = kani::any();
+    let k: u8 = if same { k0 } else { kani::any() };
+    kani::assume(same || k != k0);
+    let (kk0, kk) = (key(k0), key(k));
+    let (pt, qt) = (any_peer_tag(), any_peer_tag());
+    kani::assume(qt != pt);
+    let (p, q) = (peer(pt), peer(qt));
+    let q0 = listed(&s, &kk0, &q).is_some();
+    let p0 = listed(&s, &kk0, &p).is_some();
+    let len0 = list_len(&s, &kk0);
+    let was = same && p0;
+    s.remove_provider(&kk, &p);
     // exactly that provider record leaves; every other one stays
-    assert!(listed(&s, k, p).is_none());
-    assert!(listed(&s, k0, q).is_some() == q0);
-    assert!(list_len(&s, k0) == len0 - was as usize);
-    if k != k0 {
-        assert!(listed(&s, k0, p).is_some() == p0);
+    assert!(listed(&s, &kk, &p).is_none());
+    assert!(listed(&s, &kk0, &q).is_some() == q0);
+    assert!(list_len(&s, &kk0) == len0 - was as usize);
+    if !same {
+        assert!(listed(&s, &kk0, &p).is_some() == p0);
     }
     // empty lists are dropped
-    assert!(s.providers.get(&key(k0)).map_or(true, |l| !l.is_empty()));
+    assert!(s.providers.get(&kk0).map_or(true, |l| !l.is_empty()));
     // provided() still lists exactly the local node's current provider records
-    assert!(provided_in_sync(&s, [k0, k]));
-    std::mem::forget(s);
+    assert!(provided_in_sync(&s, [&kk0, &kk], same));
+    std::mem::forget((s, kk0, kk));
 }
 
 /// Vacuity canary: must FAIL.
